@@ -69,14 +69,13 @@ _p("C04", probes_quick=["tracker_history", "tracker_lifecycle_c03"],
    technique="Kani recording-stub harness on compatible()/apply; Verus postconditions on EpochDb extract",
    assumptions=K + V,
    not_covered=["grouping/boxes/epochs equal with and without interleaved other scenes (hyperproperty over histories)"])
-_p("C07",
+_p("C07", probes_quick=["kalman_box_c07", "kalman_point_c07"],
    level_text=PROOF_TEXT + "Decides the cost-conversion clauses of C07 for every finite d >= 0 (same gate for direct and inverted, inverted = 100 - direct) as Kani function contracts plus a lemma over the contract; vector-filter independence is a bounded stand-in.",
-   level_note="NOT covered: equality with the textbook recurrence, SPD of the covariance, Mahalanobis distance value, stationary prediction (nalgebra f32 10x10 algebra: measured infeasible).",
+   level_note="Textbook recurrence, SPD of the covariance, Mahalanobis distance value, stationary prediction and vector-filter independence are BOUNDED stand-ins only (probes kalman_box_c07 / kalman_point_c07 against an independent f64 reference filter): nalgebra f32 10x10 algebra is out of CBMC's reach (measured) and floats are uninterpreted in Verus.",
    technique="Kani function contracts (requires/ensures + proof_for_contract + stub_verified lemma)",
    assumptions=K,
    not_covered=[
-       "equality of the filter mean with the textbook recurrence, symmetric positive-definiteness of the covariance, Mahalanobis distance value (nalgebra f32 10x10 products / Cholesky)",
-       "stationary prediction for the box filter (measured: CBMC no answer in 600 s at unwind 101)"])
+       "deductively: equality of the filter mean with the textbook recurrence, symmetric positive-definiteness of the covariance, Mahalanobis distance value (nalgebra f32 10x10 products / Cholesky) - bounded probes only"])
 _p("C08", probes_quick=["bbox_geometry_c08"],
    level_text=PROOF_TEXT + "Decides the structural clauses of C08: IoU absent exactly when the intersection is 0 or a side is missing; the oriented intersection is 0 for pre-filtered pairs and otherwise the clipper's area unchanged; the axis-aligned closed form is exactly 0 without positive overlap and never negative/NaN.",
    level_note="intersection / too_far / clipper are recording stubs in the callers' harnesses. NOT covered: exactness for rotated boxes, rigid-motion invariance, IoU range/symmetry as numbers, soundness of the too_far pre-filter (trigonometry, geo area in f64).",
